@@ -222,7 +222,7 @@ class Interp:
             if isinstance(buf, S.SymSeq):
                 return S.struct_unpack(fmt, buf)
             return struct.unpack(fmt, buf)
-        if fn is struct.pack and any(isinstance(a, S.SymInt) for a in args[1:]):
+        if fn is struct.pack and any(isinstance(a, (S.SymInt, S.SymSeq, S.SymBool)) for a in args[1:]):
             return S.struct_pack(args[0], *args[1:])
         if fn is uuid.UUID and any(isinstance(v, S.SymSeq) for v in kwargs.values()):
             return SymUUID(bytes_le=kwargs["bytes_le"])
@@ -440,7 +440,16 @@ class Interp:
             setattr(self.eval(t.value, env, globs), t.attr, v)
         elif isinstance(t, ast.Subscript):
             obj = self.eval(t.value, env, globs)
-            obj[self.eval_slice(t.slice, env, globs)] = v
+            key = self.eval_slice(t.slice, env, globs)
+            if isinstance(obj, dict) and isinstance(key, V.SymInt):
+                # dictionary store with a symbolic key: an existing equal key, else one path per feasible value
+                for k in list(obj):
+                    if isinstance(k, int) and truth(key == k):
+                        key = k
+                        break
+                else:
+                    key = Engine.current.concretize(key)
+            obj[key] = v
         else:
             raise Unsupported(f"assign target {type(t).__name__}")
 
